@@ -30,25 +30,30 @@ TInit == /\ tid \in DOMAIN Recs
 IsEvent == l <= Len(R.events)
 Ev == R.events[l]
 
-TraceSolveK == /\ IsEvent /\ IsMain(R, Ev) /\ SolveK(Class(Ev[2])) /\ l' = l + 1 /\ UNCHANGED <<tid, why>>
+TraceSolveK == /\ IsEvent /\ Ev[1] # "retry" /\ IsMain(R, Ev) /\ SolveK(Class(Ev[2])) /\ l' = l + 1 /\ UNCHANGED <<tid, why>>
 (* Lifecycle!Nested, also accepted (as a no-op on the phase) after the search has ended *)
-TraceNested == /\ IsEvent /\ ~IsMain(R, Ev)
+TraceNested == /\ IsEvent /\ Ev[1] # "retry" /\ ~IsMain(R, Ev)
                /\ nestedFault' = (nestedFault \/ Class(Ev[2]) \in Inconclusive)
                /\ l' = l + 1 /\ UNCHANGED <<phase, n, hist, kstar, tid, why>>
 (* the library kept invoking the solver after it had to give up: tolerated as long as the outcome stays Unsolved *)
-TraceAfterGiveUp == /\ IsEvent /\ IsMain(R, Ev) /\ phase = "Unsolved"
+TraceAfterGiveUp == /\ IsEvent /\ Ev[1] # "retry" /\ IsMain(R, Ev) /\ phase = "Unsolved"
                     /\ l' = l + 1 /\ why' = "continued-after-inconclusive"
                     /\ UNCHANGED <<phase, n, hist, kstar, nestedFault, tid>>
 (* no action of the specification explains the event *)
 TraceUnexplained ==
-  /\ IsEvent /\ IsMain(R, Ev) /\ phase \in {"Searching", "Solved", "Rejected"}
+  /\ IsEvent /\ Ev[1] # "retry" /\ IsMain(R, Ev) /\ phase \in {"Searching", "Solved", "Rejected"}
   /\ ~(phase = "Searching" /\ Class(Ev[2]) \in {Truth(n)} \cup Inconclusive)
   /\ phase' = "Rejected" /\ l' = l + 1
   /\ why' = (IF phase = "Solved" THEN "invocation-after-solved"
              ELSE IF Class(Ev[2]) = "Optimal" THEN "optimal-below-kstar" ELSE "infeasible-at-kstar")
   /\ UNCHANGED <<n, hist, kstar, nestedFault, tid>>
 
-TNext == TraceSolveK \/ TraceNested \/ TraceAfterGiveUp \/ TraceUnexplained
+(* the caller called solve() again (event ["retry", "-"], logged by the harness between the two calls) *)
+IsRetry == IsEvent /\ Ev[1] = "retry"
+TraceRetry == /\ IsRetry /\ Retry /\ l' = l + 1 /\ UNCHANGED <<tid, why>>
+TraceRetryNotUnsolved == /\ IsRetry /\ phase # "Unsolved" /\ l' = l + 1
+                         /\ UNCHANGED <<phase, n, hist, kstar, nestedFault, tid, why>>     \* solve() again on a solved object: nothing to specify here
+TNext == TraceSolveK \/ TraceNested \/ TraceAfterGiveUp \/ TraceUnexplained \/ TraceRetry \/ TraceRetryNotUnsolved
 TSpec == TInit /\ [][TNext]_tvars
 
 (***************************************************************************)
